@@ -36,6 +36,8 @@ CHECKS = {
             "file sizes are solver variables; both content-path choices; float rounding closed by a bit-precise z3 lemma"),
     "C16": ("5/C04-C05-C16", "symbolic execution (symx) of the recheck iterators vs a reference piece table; percentage compared as exact rational; z3",
             "file sizes, truncation lengths and flip offsets are solver variables"),
+    "C11": ("5/C11", "symbolic execution (symx) of commands.magnet/get_magnet over opaque strings with forked key presence and list lengths; info bytes as an opaque bencoding token, injective hash and quote_plus tagging models; z3",
+            "key presence, tracker tiers, web-seed count and the requested version are forked; names/URLs are opaque (any length/alphabet); real quote_plus exercised concretely in validation and replays"),
     "C12": ("5/C12", "symbolic execution (symx) of normalize_piece_length/get_piece_length/MetaFile.__init__ over a symbolic integer (|x|<2^64 and up to 2^1100) and symbolic character-class strings; z3 LIA + bit decomposition + QF_FP lemmas",
             "the argument (integer, or string of <= 8 symbolic character classes) and the payload sizes are solver variables; floats havoc'd and confirmed by replay"),
     "C17": ("5/C17", "symbolic execution (symx) of edit_torrent on the fault-injecting abstract filesystem: crash/error at a symbolic operation index; z3",
@@ -44,6 +46,8 @@ CHECKS = {
             "file sizes and damage positions are solver variables, so the log is judged on every iterator path; argument vectors are configurations"),
     "C15": ("5/C15", "symbolic execution (symx) of TorrentFile(align=True)/Hasher vs gap arithmetic and BEP 3 reference; z3",
             "file sizes and listing order are solver variables; modulo by a concrete piece length stays linear"),
+    "C20": ("5/C20", "symbolic execution (symx) of commands.create/parse_config_file/MetaFile.__init__ through three routes (argparse contract learnt from the real parser, INI mapping, keywords) on opaque option values; z3",
+            "option values are opaque strings with forked true/false/emptiness observations; payload size is a solver variable; argument orders are configurations"),
 }
 
 NOT_YET = {
